@@ -1,4 +1,5 @@
 import Tengo.Model.Verifier
+import Tengo.Proofs.VMSafe
 import Tengo.Gen.Opcodes
 import Tengo.Gen.Limits
 /-!
@@ -13,6 +14,7 @@ every function the real compiler emits (harness/cmd/c02) and its height table is
 -/
 namespace Tengo.Props.C02
 open Tengo.Model Tengo.Model.Opcodes Tengo.Model.Verifier
+open Tengo.Model.VM Tengo.Model.Spec
 
 theorem opcode_table_matches : Tengo.Gen.Opcodes.table = Tengo.Model.Opcodes.table := by decide
 
@@ -115,5 +117,51 @@ example :
 /-- Non-vacuity of rejection: a POP on an empty stack is refused. -/
 example : (match heights [⟨0, opPop, []⟩, ⟨1, opSuspend, []⟩] 2048 with | .ok _ => true | .error _ => false) = false := by
   decide
+
+/-- **C02 for the whole-VM model (`verified_run_safe`).** If the whole-program verifier accepts the
+code object, then a run started as `VM.Run` starts it — any length, any allocation budget, any heap,
+any initial globals — never ends in an internal fault, and if it halts the operand stack is empty and
+no call frame is left. -/
+theorem verified_run_safe (code : Code) (G : Nat) (t : ProgTabs) (hv : verifyProgram code G = .ok t)
+    (globals : Array Value) (hG : globals.size = G) (fobjs : Array FnObj) (hi : initOk code t fobjs = true)
+    (keep fuel : Nat) (allocs : Int) (g : GSt) (heap : St) :
+    GoodOutcome code t G (run code keep fuel allocs ⟨initCore globals fobjs, g, heap⟩ {}).1 :=
+  run_safe (verifyProgram_ok hv) keep fuel allocs _ {} (init_inv (verifyProgram_ok hv) globals hG fobjs hi)
+
+theorem verified_no_fault (code : Code) (G : Nat) (t : ProgTabs) (hv : verifyProgram code G = .ok t)
+    (globals : Array Value) (hG : globals.size = G) (fobjs : Array FnObj) (hi : initOk code t fobjs = true)
+    (keep fuel : Nat) (allocs : Int) (g : GSt) (heap : St) (ft : Fault) (at_ : Cfg) :
+    (run code keep fuel allocs ⟨initCore globals fobjs, g, heap⟩ {}).1 ≠ .fault ft at_ := by
+  intro h
+  have := verified_run_safe code G t hv globals hG fobjs hi keep fuel allocs g heap
+  rw [h] at this
+  exact this
+
+theorem verified_halt_balanced (code : Code) (G : Nat) (t : ProgTabs) (hv : verifyProgram code G = .ok t)
+    (globals : Array Value) (hG : globals.size = G) (fobjs : Array FnObj) (hi : initOk code t fobjs = true)
+    (keep fuel : Nat) (allocs : Int) (g : GSt) (heap : St) (cfg' : Cfg)
+    (h : (run code keep fuel allocs ⟨initCore globals fobjs, g, heap⟩ {}).1 = .halted cfg') :
+    cfg'.core.regs.sp = 0 ∧ cfg'.core.callers = [] := by
+  have := verified_run_safe code G t hv globals hG fobjs hi keep fuel allocs g heap
+  rw [h] at this
+  exact this
+
+/-! non-vacuity: `x := 1 + 1` (CONST 0; CONST 0; BINARYOP +; SETG 0; SUSPEND) and a program with a closure call -/
+def exMain : Fn := { insts := #[0, 0, 0, 0, 0, 0, 40, 11, 23, 0, 0, 41], numLocals := 0, numParams := 0, varargs := false }
+def exCode : Code := { main := exMain, consts := #[.val (.int 1)] }
+
+example : (match verifyProgram exCode 1 with | .ok t => initOk exCode t #[] | .error _ => false) = true := by decide
+
+
+/-- a program that calls a function constant: `f := func() {}; f()` -/
+def exFn : Fn := { insts := #[21, 0], numLocals := 0, numParams := 0, varargs := false }
+def exCode2 : Code := { main := { insts := #[0, 0, 0, 20, 0, 0, 2, 41], numLocals := 0, numParams := 0, varargs := false },
+                        consts := #[.fn exFn 0] }
+example : (match verifyProgram exCode2 1 with | .ok t => initOk exCode2 t #[(0, [])] && t.fns.length == 2 | .error _ => false) = true := by
+  decide
+
+/-- and rejection: a main function that pops an empty stack -/
+example : (match verifyProgram { main := { insts := #[2, 41], numLocals := 0, numParams := 0, varargs := false }, consts := #[] } 1 with
+    | .ok _ => true | .error _ => false) = false := by decide
 
 end Tengo.Props.C02
